@@ -41,7 +41,7 @@ def main():
         "engines": [{"name": "tlc-trace", "path": "tools/run_check.py", "serves_properties": [c["property_id"] for c in checks],
                      "kind_free_text": "TLA+ specification (spec/*.tla); TLC explores bounded models and validates ndjson traces recorded from the real crates (harness/), one JVM per shard"}],
         "checks": checks,
-        "notes": "All verdicts come from TLC evaluating spec/*.tla; drivers only construct inputs. Exit 2 = tool error.",
+        "notes": "All verdicts come from TLC evaluating spec/*.tla (plus one symbolic Apalache check, spec/AP_Bounds.tla, among the models of C09); drivers only construct inputs. Exit 2 = tool error. Self-tests (not checks): tools/bindtest.py, tools/selftest.py.",
         "not_applicable": na,
     }
     json.dump(m, open(os.path.join(ROOT, "MANIFEST.json"), "w"), indent=1)
